@@ -502,16 +502,29 @@ class Machine:
             return UNKNOWN
         if c.endswith("String::push") or c.endswith("String::push_str") or c.endswith("String::insert") or c.endswith("String::insert_str"):
             tgt, cur = raw[0], a[0]
-            if isinstance(tgt, absint.Ptr) and isinstance(cur, str):
+            if isinstance(tgt, absint.Ptr) and isinstance(cur, (str, Text)):
                 piece = a[-1]
                 piece = chr(piece) if isinstance(piece, int) and not isinstance(piece, bool) else piece
-                if isinstance(piece, str):
+                if isinstance(piece, str) and isinstance(cur, str):
                     if "insert" in c.rsplit("::", 1)[-1]:
                         i = a[1] if isinstance(a[1], int) else 0
                         tgt.set(cur[:i] + piece + cur[i:])
                     else:
                         tgt.set(cur + piece)
                     return []
+                if isinstance(piece, (str, Text)) and "insert" not in c.rsplit("::", 1)[-1]:
+                    # text with opaque parts (the rendering of an opaque value): appended as it is
+                    tgt.set(Text([cur, piece]).flat())
+                    return []
+            if isinstance(cur, Text) and "insert" not in c.rsplit("::", 1)[-1]:
+                # (a text with opaque parts is an object of its own: every alias sees the appended piece)
+                piece = a[-1]
+                piece = chr(piece) if isinstance(piece, int) and not isinstance(piece, bool) else piece
+                if isinstance(piece, (str, Text)):
+                    cur.parts[:] = Text([Text(list(cur.parts)), piece]).parts
+                    return []
+            if isinstance(tgt, absint.Ptr) or isinstance(cur, Text):
+                raise Stuck("%s with a piece / a string that is not known text" % c.rsplit("::", 1)[-1])
             return UNKNOWN
         if c and raw and (tt.get("fn") or {}).get("resolved") is None and ((self.gmap_stack and self.gmap_stack[-1]) or
                                                                              c.rsplit("::", 1)[0].endswith(("cmp::PartialEq", "cmp::PartialOrd"))):
@@ -762,6 +775,13 @@ class Machine:
         if isinstance(value, int):
             if ty == "char":
                 return chr(value)
+            tyn = (ty or "").replace("&", "").replace("mut ", "").strip()
+            if tyn in PRIM_INTS:
+                return str(value)
+            if "dyn " in tyn or not tyn or tyn in ("T", "U", "V"):
+                # a character and an integer are the same abstract value: printed through a type that does not say which
+                # (`&dyn Display`), the text is not known
+                return Text([Hole(value, ty, kind)]).flat()
             return str(value)
         base = mir.norm(ty).split("<")[0] if ty else ""
         if isinstance(value, Enum) and getattr(value, "adt", None):
@@ -845,6 +865,21 @@ class Machine:
                 return some(int(t_)) if lo_ <= t_ <= hi_ else none()
             if end in ("to_f32", "to_f64"):
                 return some(x)
+        if "num::NonZero" in c and end == "new" and len(a) == 1:
+            # NonZero::new(n): Some(n) unless n is zero; the wrapper is its value (get / into are the identity)
+            if isinstance(a0, int) and not isinstance(a0, bool):
+                return some(a0) if a0 != 0 else none()
+            if isinstance(a0, absint.Sym) and absint.SYM_COMPARE is not None:
+                return none() if absint.SYM_COMPARE("eq", a0, 0) else some(a0)
+            raise Stuck("NonZero::new on a value that is not known")
+        if "num::NonZero" in c and end == "get" and len(a) == 1 and (isinstance(a0, absint.Sym) or (isinstance(a0, int) and not isinstance(a0, bool))):
+            return a0
+        if "<impl bool>" in c and end in ("then_some", "then") and len(a) == 2:
+            if a0 is True:
+                return some(a[1] if end == "then_some" else self.call_value(a[1], []))
+            if a0 is False:
+                return none()
+            raise Stuck("bool::%s on a condition that is not known" % end)
         if len(a) == 2 and end in ("lt", "le", "gt", "ge", "eq", "ne") and c.rsplit("::", 1)[0].endswith(("cmp::PartialOrd", "cmp::PartialEq")) \
                 and all(isinstance(x, (int, float)) and not isinstance(x, bool) for x in a) and any(isinstance(x, float) for x in a):
             x_, y_ = a
@@ -948,6 +983,10 @@ class Machine:
                 return copy_spine(a0)
             if "rc::Rc" not in c and "rc::Rc<" not in g0[:20] and has_cells(a0):
                 return copy_cells(a0)          # (a derived Clone of something that holds a list: the cells are not shared)
+        if end in ("from", "into") and isinstance(a0, int) and not isinstance(a0, bool) and tt is not None and ("string::String" in c or "convert::Into" in c):
+            gens_ = [str(x) for x in (self.subst_generics((tt.get("fn") or {}).get("generics")) or []) if not str(x).startswith("'")]
+            if ("From<char>" in c and "String" in c) or (len(gens_) == 2 and {gens_[0], gens_[1]} == {"char", "std::string::String"}):
+                return chr(a0)                       # String::from(c) / c.into(): the one-character string
         if end == "to_string" and "ToString" in c and isinstance(a0, int) and not isinstance(a0, bool) and tt is not None:
             gens_ = [str(x) for x in (self.subst_generics((tt.get("fn") or {}).get("generics")) or []) if not str(x).startswith("'")]
             if gens_ and gens_[0].replace("&", "").strip() == "char":
@@ -1200,6 +1239,15 @@ class Machine:
                 return is_some
             if end == "is_none":
                 return not is_some
+            if end == "zip" and len(a) == 2:
+                if not is_some:
+                    return none()
+                if isinstance(a[1], Enum):
+                    return some([x, a[1].fields[0]]) if (a[1].variant == 1 and a[1].fields) else none()
+                raise Stuck("Option::zip with an option that is not known")
+            if end == "xor" and len(a) == 2 and isinstance(a[1], Enum):
+                other = a[1].variant == 1
+                return a0 if (is_some and not other) else (a[1] if (other and not is_some) else none())
             if end in ("or",):
                 return a0 if is_some else a[1]
             if end == "or_else":
@@ -1362,6 +1410,12 @@ class Machine:
                 return some(ListSlot(a0, a[1])) if end == "get_mut" else some(a0[a[1]])
             return UNKNOWN
         if m("std::ops::Index>::index", "std::ops::IndexMut>::index_mut", "std::ops::Index::index", "std::ops::IndexMut::index_mut"):
+            if isinstance(a0, Map) and len(a) == 2:
+                e_ = a0.d.get(key_of(a[1]))
+                if e_ is None:
+                    self.events.append(("panic", "map[key] on an absent key", g.name if g else "?"))
+                    return UNKNOWN
+                return e_[1]
             if isinstance(a0, list) and isinstance(a[1], int) and not isinstance(a[1], bool):
                 if not 0 <= a[1] < len(a0):
                     self.events.append(("panic", "index out of bounds", g.name if g else "?"))
@@ -2193,7 +2247,7 @@ class FnItem:
 
 
 OPTION_METHODS = {"transpose", "map", "and_then", "ok_or", "ok_or_else", "unwrap_or", "unwrap_or_else", "map_or", "map_or_else", "is_some",
-                  "is_none", "or", "or_else", "filter", "unwrap", "expect", "take", "replace", "unwrap_or_default"}
+                  "is_none", "or", "or_else", "filter", "unwrap", "expect", "take", "replace", "unwrap_or_default", "zip", "xor"}
 RESULT_METHODS = {"transpose", "map", "map_err", "and_then", "or_else", "ok", "err", "is_ok", "is_err", "unwrap_or", "unwrap_or_else", "unwrap",
                   "expect", "unwrap_or_default"}
 FLOAT_UNARY = ("floor", "ceil", "round", "trunc", "abs", "fract", "neg", "sqrt", "signum", "is_nan", "is_infinite", "is_finite",
